@@ -277,7 +277,10 @@ func HarnessC18Structure() {
 	case 2:
 		cellsPerRow = []int{4, 4, 3}
 	case 3: // tall: 21 one-cell rows, then a wider row
-		cellsPerRow = []int{1, 2, 1, 1, 1, 1, 1, 1, 1, 1, 1, 1, 1, 1, 1, 1, 1, 1, 1, 1, 1, 2}
+		cellsPerRow = []int{1, 1, 1, 1, 1, 1, 1, 1, 1, 1, 1, 1, 1, 1, 1, 1, 1, 1, 1, 1, 1, 2}
+		if f.nested || f.object != 0 {
+			vx.Assume(false) // these features live in the second cell of the second row
+		}
 	}
 	f.rows = c18Span(rs) + len(cellsPerRow) - 1
 	if f.header == 2 || f.header == 3 || f.header == 7 {
